@@ -34,15 +34,20 @@ def run(ctx) -> list[Inst]:
     rel = f.module.relpath
     cfg = ctx.cfg(f)
     R = ctx.R(f)
-    P_E = f.params[3]
-    P_T = f.params[2]
+    from .r19_flow import evaluator_roles, _arg as _arg19
+    roles = evaluator_roles(f)
+    if roles is None:
+        return [Inst(RULE, EVAL, 'evaluator parameters', 'unproven', msg='parameter roles not recognised', file=rel,
+                     line=f.node.lineno, props=PROPS2, nontrivial=False)]
+    P_E = roles[3]
+    P_T = roles[2]
     insts = []
     nrec = 0
     for n in own_nodes(f.node):
         if isinstance(n, ast.Call) and isinstance(n.func, ast.Name) and n.func.id == EVAL:
             nrec += 1
-            e = n.args[3] if len(n.args) > 3 else next((k.value for k in n.keywords if k.arg == P_E), None)
-            t = n.args[2] if len(n.args) > 2 else next((k.value for k in n.keywords if k.arg == P_T), None)
+            e = _arg19(n, f, P_E)
+            t = _arg19(n, f, P_T)
             node = cfg.owner(n)
             construct = f'(1) recursive call with expression {stmt_text(e)}'
             if isinstance(e, ast.Subscript) and is_name(e.value, P_E) and isinstance(e.slice, ast.Constant) \
